@@ -10,12 +10,16 @@ import (
 
 func init() {
 	Registry["C15"] = Spec{
-		Pkgs: map[string][]string{"v2": {"resolve", "ast"}},
+		Pkgs: map[string][]string{"v2": {"resolve", "ast", "gqlds", "httpclient"}},
 		Run:  runC15,
 		Explanation: "Decides the structural half of 'an omitted variable stays omitted and every literal kind is converted': every function that renders request input with InputTemplate.RenderAndCollectUndefinedVariables passes one and the same collector at all its render sites and applies exactly that collector to the same buffer (SetInputUndefinedVariables) on every path before the buffer becomes the request input — or consumes the collector itself (the per-variable omission of multi-entity entries); " +
 			"the template renderer reports a context variable as undefined exactly on its missing-value edge and records it in the collector; the literal→JSON writer, the value copier and the printer cover all nine value kinds or fail loudly. " +
 			"It does not decide character-level equality of literals and JSON nor validity of the variables object for all spellings (value level).",
 		Mutants: []Mutant{
+			{Name: "subscription start forwards the variables as rendered (the repaired defect F16)", File: gqldsGo, Rule: "C15-R4", Key: "SubscriptionSource.Start/removes-undefined-variables",
+				Old: "\tinput = (&Source{}).compactAndUnNullVariables(input)\n\tvar options GraphQLSubscriptionOptions", New: "\tvar options GraphQLSubscriptionOptions"},
+			{Name: "file uploads skip the un-nulling of variables", File: gqldsGo, Rule: "C15-R4", Key: "Source.LoadWithFiles/removes-undefined-variables",
+				Old: "\tinput = s.compactAndUnNullVariables(input)\n\treturn httpclient.DoMultipartForm(", New: "\treturn httpclient.DoMultipartForm("},
 			{Name: "footer rendered through a closure that takes the collector by value (seeded change C15-13)", File: loaderGo, Rule: "C15-R1", Key: "prepareEntityFetch/one-collector",
 				Old: "\tresponseCacheFooterStart := preparedInput.Len()\n\n\terr = fetch.Input.Footer.RenderAndCollectUndefinedVariables(l.ctx, nil, preparedInput, &undefinedVariables)\n\tif err != nil {\n\t\treturn errors.WithStack(err)\n\t}\n\n\t// Built before SetInputUndefinedVariables",
 				New: "\tresponseCacheFooterStart := preparedInput.Len()\n\n\trenderFooter := func(uv []string) error {\n\t\treturn fetch.Input.Footer.RenderAndCollectUndefinedVariables(l.ctx, nil, preparedInput, &uv)\n\t}\n\terr = renderFooter(undefinedVariables)\n\tif err != nil {\n\t\treturn errors.WithStack(err)\n\t}\n\n\t// Built before SetInputUndefinedVariables"},
@@ -34,6 +38,7 @@ func init() {
 }
 
 func runC15(r *fw.Run) {
+	defer c15EveryEntryPointUnNulls(r)
 	p := r.Prog
 	pk := p.Pkg("resolve")
 	if pk == nil {
@@ -256,4 +261,51 @@ func collectorObj(info *types.Info, e ast.Expr) types.Object {
 		return nil
 	}
 	return fw.RootObj(info, u.X)
+}
+
+// c15EveryEntryPointUnNulls (R4): the resolver renders a variable the client omitted as null and lists its name under the
+// "undefined" marker of the fetch input; the GraphQL data source removes such variables again before the request leaves.
+// Every entry point of package graphql_datasource through which a resolver-rendered input leaves for a subgraph — Load,
+// LoadWithFiles of the query/mutation source and Start of the subscription source — reads that marker (directly or through
+// a function of the package).
+func c15EveryEntryPointUnNulls(r *fw.Run) {
+	p := r.Prog
+	r.Rule("C15-R4", "every entry point of the GraphQL data source that sends a resolver-rendered input to a subgraph (Load, LoadWithFiles, subscription Start) reads the undefined-variables marker of the input, so that an omitted variable is removed again instead of being sent as null")
+	pk := p.Pkg("gqlds")
+	if pk == nil {
+		r.Error("C15-R4: package graphql_datasource not loaded")
+		return
+	}
+	info := pk.TypesInfo
+	readsMarker := map[*types.Func]bool{}
+	for changed := true; changed; {
+		changed = false
+		for _, fi := range p.Funcs("gqlds") {
+			if readsMarker[fi.Obj] {
+				continue
+			}
+			fw.WalkAll(fi.Decl.Body, func(nd ast.Node) bool {
+				if c, ok := nd.(*ast.CallExpr); ok {
+					fn := fw.Callee(info, c)
+					if fn != nil && (fw.FuncIs(fn, "httpclient", "UndefinedVariables") || readsMarker[fn]) && !readsMarker[fi.Obj] {
+						readsMarker[fi.Obj] = true
+						changed = true
+					}
+				}
+				return true
+			})
+		}
+	}
+	n := 0
+	for _, name := range []string{"Source.Load", "Source.LoadWithFiles", "SubscriptionSource.Start"} {
+		fi := p.Func("gqlds", name)
+		if fi == nil {
+			r.Error("C15-R4: %s not found", name)
+			continue
+		}
+		n++
+		r.Check(readsMarker[fi.Obj], "C15-R4", name+"/removes-undefined-variables", fi.Pos(), name+" reads the undefined-variables marker of its input",
+			"this entry point forwards the variables object as rendered: a variable the client omitted — rendered as null and listed under \"undefined\" by the resolver — reaches the subgraph as an explicit null (its sibling entry points remove it)")
+	}
+	r.Expect("C15-R4", "entry points of the GraphQL data source", n, 3)
 }
